@@ -12,7 +12,11 @@ prop("C03", "fault_enumeration",
      "deliver a bit-flipped copy before the original (flip in type / reserved / session id / counter / body / tag region), flip in "
      "flight, deliver a copy truncated to any length or extended, reflect a copy to its sender, inject a copy into the other "
      "session (with and without rewriting the session id), and send forged control / unknown-type / transport datagrams carrying "
-     "the live session id from the peer's or a third address; one case in four runs on a faithful network. Message sizes also sit at and "
+     "the live session id from the peer's or a third address; and it can ALTER A CLEARTEXT HEADER FIELD of a copy (delivered before the "
+     "original) or of the datagram in flight: the type byte is REPLACED by another defined message type (the other session type - "
+     "Transport <-> Control, which passes every syntactic check of the receiver - most often, else one of the seven handshake types), "
+     "or the type byte / the 3 reserved bytes / the session id / the counter are XORed with a drawn mask of any weight (uniform 64 bits, "
+     "2-5 drawn bits, or the difference of two defined type values in a drawn byte position); one case in four runs on a faithful network. Message sizes also sit at and "
      "next to block boundaries of the AEAD (k*B-1, k*B, k*B+1 for every multiple up to ~4200 bytes and the last multiples below Max; B mostly the "
      "200-byte permutation width of Kravatte - the message as written is exactly the AEAD plaintext, the 16 header bytes are associated data - "
      "sometimes 8/16/32/64/136/168; also as the LAST packet of a multi-packet Write), and a flip draws its position from a coarse region or a "
